@@ -11,7 +11,7 @@
 (* of a framework is the product of those of its components is theorem     *)
 (* Product of MCDung.                                                      *)
 (***************************************************************************)
-EXTENDS Dung, Cli, TLC, Json, IOUtils, SequencesExt, FiniteSetsExt
+EXTENDS Meta, Cli, TLC, Json, IOUtils, SequencesExt, FiniteSetsExt
 Rec == ndJsonDeserialize(IOEnv.TRACE)
 
 VARIABLES l, af, ids, comps, famc
@@ -117,6 +117,27 @@ JudgeCli(e) ==
                  /\ Report("C05:answer_content", (e.status = "YES") = ref)
                  /\ e.wline => Report("C05:answer_content", /\ InFam(W, cs) /\ Len(e.wargs) = Cardinality(W)
                                                             /\ (IF cred THEN W \cap A # {} ELSE W \cap A = {}))
+(* C05 on instances with thousands of arguments: exit status, shape, and polynomial necessary conditions on the printed witness *)
+JudgeCliBig(e) ==
+  LET inv == e.inv
+      W == ToSet(e.wargs)
+      A == ToSet(e.args)
+      atk == AtkMap(af)
+      cs == IF e.sem = "PR" /\ inv.kind = "DC" THEN "CO" ELSE e.sem
+      necessary == CASE cs \in {"GR", "CO", "SST"} -> CompleteFast(af, atk, W)
+                     [] cs \in {"PR", "ID"} -> AdmissibleFast(af, atk, W)
+                     [] cs = "ST" -> StableFast(af, W)
+                     [] cs = "STG" -> CFFast(af, W)
+  IN
+  /\ Report("C05:terminates", ~e.timeout)
+  /\ Report("C05:answer_exit_status_zero", e.exit = 0)
+  /\ e.exit = 0 =>
+       /\ Report("C05:answer_shape", ~e.malformed /\ (IF inv.kind = "SE" THEN e.nlines = 1 ELSE e.status \in {"YES", "NO"} /\ e.nlines = (IF e.wline THEN 2 ELSE 1)))
+       /\ (~e.malformed /\ e.wline) =>
+            Report("C05:answer_content", /\ W \subseteq af.args /\ Len(e.wargs) = Cardinality(W) /\ necessary
+                                         /\ (inv.kind = "DC" => W \cap A # {}) /\ (inv.kind = "DS" => W \cap A = {}))
+       /\ inv.log = "off" => Report("C05:nothing_but_the_answer_when_logging_is_off", e.nlog = 0)
+
 JudgeProblems(e) == Report("C05:problems_listed", e.exit = 0 /\ ToSet(e.listed) = Problems /\ Len(e.listed) = 21)
 
 Next ==
@@ -126,8 +147,9 @@ Next ==
      IF e.ev = "af" THEN
         /\ af' = [args |-> ToSet(e.args), att |-> Pairs(e.att)]
         /\ ids' = Pairs(e.ids)
-        /\ comps' = Components(af')
-        /\ famc' = [c \in comps' |-> [s \in ToSet(e.sems) |-> FamFast(RestrictAF(af', c), s)]]
+        \* "big" instances (thousands of arguments, C05): families are out of reach, only necessary conditions are judged
+        /\ comps' = IF "big" \in DOMAIN e THEN {} ELSE Components(af')
+        /\ famc' = IF "big" \in DOMAIN e THEN <<>> ELSE [c \in comps' |-> [s \in ToSet(e.sems) |-> FamFast(RestrictAF(af', c), s)]]
      ELSE
         /\ UNCHANGED <<af, ids, comps, famc>>
         /\ CASE e.ev = "q" -> IF e.kind = "SE" THEN JudgeSE(e) ELSE JudgeAcc(e)
@@ -135,7 +157,7 @@ Next ==
              [] e.ev = "cc" -> JudgeCc(e)
              [] e.ev = "frame" -> JudgeFrame(e)
              [] e.ev = "agree" -> JudgeAgree(e)
-             [] e.ev = "cli" -> JudgeCli(e)
+             [] e.ev = "cli" -> IF "big" \in DOMAIN e THEN JudgeCliBig(e) ELSE JudgeCli(e)
              [] e.ev = "problems" -> JudgeProblems(e)
              [] OTHER -> TRUE
 
